@@ -191,6 +191,9 @@ func Run(raw json.RawMessage) (any, error) {
 			}
 		case "stash":
 			r = s.Exec("CALL dolt_stash('push','st')")
+		case "stash_bad":
+			// an illegal stash name: the push must fail and must not touch the working set
+			r = s.Exec("CALL dolt_stash('push','my stash')")
 		case "pop":
 			r = s.Exec("CALL dolt_stash('pop','st')")
 		case "reset_hard":
